@@ -91,11 +91,11 @@ type muxClient struct {
 }
 
 type muxHandle struct {
-	u      string
-	pc     net.PacketConn
-	id     string
-	reads  bool
-	mu     sync.Mutex
+	u       string
+	pc      net.PacketConn
+	id      string
+	reads   bool
+	mu      sync.Mutex
 	del     [][2]int
 	closed  bool
 	aborted bool // SetDeadline(now) + Close were called on this handle
